@@ -19,6 +19,14 @@ fn fma(x: f64, y: f64, z: f64) -> f64 {
     libm::fma(x, y, z)
 }
 
+/// Verification hook (guarded by `--cfg twofloat_verif`): exposes the cfg-selected private
+/// `fma` so that a conformance harness can check it against the exact `x*y+z`.
+#[cfg(twofloat_verif)]
+#[doc(hidden)]
+pub fn __verif_fma(x: f64, y: f64, z: f64) -> f64 {
+    fma(x, y, z)
+}
+
 /// Renormalization ensures that the components of the returned tuple are arranged in such a
 /// way that the absolute value of the last component is no more than half the ULP of the
 /// first.
